@@ -607,7 +607,7 @@ func (j *c19Job) RunUnit(i int, c *run.Ctx) {
 				continue
 			}
 			// thorough tier, histories of length 4: operations 3 and 4 both from the core alphabet
-			if len(hist) == 3 && !(c19Core(hist[2]) && c19Core(op)) {
+			if len(hist) == 3 && !(c19Core(hist[1]) && c19Core(hist[2]) && c19Core(op)) {
 				continue
 			}
 			rec(append(hist, op))
@@ -770,7 +770,7 @@ func init() {
 		},
 		Bounds: map[string]string{
 			"quick":    "operations: Parse of 23 paths (three of them longer than 64 / 128 / 1024 bytes, and the empty path; plain, filter function, aggregate, functions inside filters, nested parameters, and one failing at each action: bad integer, bad float, bad regex, bad string, unknown function after a known one, script, value-group comparison, two @ operands, trailing garbage) x 7 configs (none, {f}, {g}, {f'}, accessor, all, shared object) plus, for the plain / f / g paths, two Config arguments (shared object, fresh {f', h, g}) and a by-value copy of the shared object with accessor mode set on the copy, 'rebind f in the shared Config', 're-call an earlier function'; all histories of length <=2 and length 3 with the third operation from the core alphabet (the function, bad-regex, '$'-less, failing-parameter, long and empty paths with no config / {f} / the shared object, rebind, re-call); BFS to fixpoint",
-			"thorough": "as quick, plus: third operation also over the reduced alphabet (every path with the even-numbered configs, every third path with all) (the function, bad-regex, '$'-less and failing-parameter paths with no config / {f} / the shared object, rebind, re-call), and all histories of length 4 whose first two operations range over the full alphabet and whose last two over the core alphabet; BFS to fixpoint",
+			"thorough": "as quick, plus: third operation also over the reduced alphabet (every path with the even-numbered configs, every third path with all) (the function, bad-regex, '$'-less and failing-parameter paths with no config / {f} / the shared object, rebind, re-call), and all histories of length 4 whose first operation ranges over the full alphabet and whose last three over the core alphabet; BFS to fixpoint",
 		},
 		New: newC19,
 		Replay: func(cs map[string]interface{}) (bool, string) {
